@@ -783,10 +783,11 @@ fn RingBufferWrite<AllocU8: alloc::Allocator<u8>>(
         .wrapping_add(rb.size_ as usize)
         .wrapping_sub(1)];
     rb.data_mo.slice_mut()[rb.buffer_index.wrapping_sub(1)] = data_1;
-    rb.pos_ = rb.pos_.wrapping_add(n as u32);
-    if rb.pos_ > 1u32 << 30 {
-        rb.pos_ = rb.pos_ & (1u32 << 30).wrapping_sub(1) | 1u32 << 30;
-    }
+    // keep pos_ congruent to the stream position modulo size_ (a 2^31-byte ring for lgwin 30 is
+    // larger than the 2^30 the fold used to assume) and out of the first lap once it has left it
+    let lap: u64 = core::cmp::max(1u64 << 30, rb.size_ as u64);
+    let p: u64 = (rb.pos_ as u64).wrapping_add(n as u64);
+    rb.pos_ = if p > lap { ((p & (lap - 1)) | lap) as u32 } else { p as u32 };
 }
 
 impl<Alloc: BrotliAlloc> BrotliEncoderStateStruct<Alloc> {
